@@ -20,8 +20,8 @@ import (
 	"github.com/cossacklabs/acra/decryptor/base"
 	"github.com/cossacklabs/acra/keystore/filesystem"
 	"github.com/cossacklabs/acra/logging"
-	log "github.com/sirupsen/logrus"
 	"github.com/cossacklabs/acra/sqlparser"
+	log "github.com/sirupsen/logrus"
 
 	"verifharness/internal/c04"
 	"verifharness/internal/c04/fakemy"
@@ -43,16 +43,17 @@ import (
 
 // Script is one generated session.
 type Script struct {
-	Dialect    string `json:"dialect"` // pg | my
-	Level      string `json:"level"`   // trace | debug | info | warn
-	Parser     string `json:"parser"`  // default | strict   (acra-server --sql_parse_on_error_exit_enable)
-	TokVerbose bool   `json:"tokverbose,omitempty"`
-	Censor     string `json:"censor"` // name in censorConfigs
-	Enc        string `json:"enc"`    // name in encConfigs
-	Keys       string `json:"keys"`   // full | none   (does the client own keys)
-	Seed       uint64 `json:"seed"`   // keys and crypto/rand of the session
-	Steps      []Step `json:"steps"`
-	Needles    []Needle `json:"needles"`
+	Dialect      string   `json:"dialect"` // pg | my
+	Level        string   `json:"level"`   // trace | debug | info | warn
+	Parser       string   `json:"parser"`  // default | strict   (acra-server --sql_parse_on_error_exit_enable)
+	TokVerbose   bool     `json:"tokverbose,omitempty"`
+	Censor       string   `json:"censor"`                  // name in censorConfigs
+	Enc          string   `json:"enc"`                     // name in encConfigs
+	Keys         string   `json:"keys"`                    // full | none   (does the client own keys)
+	Seed         uint64   `json:"seed"`                    // keys and crypto/rand of the session
+	DeprecateEOF bool     `json:"deprecate_eof,omitempty"` // MySQL: the client announces CLIENT_DEPRECATE_EOF
+	Steps        []Step   `json:"steps"`
+	Needles      []Needle `json:"needles"`
 }
 
 // Step is one client action.
@@ -60,31 +61,31 @@ type Step struct {
 	// simple: Query (PG) / COM_QUERY (MySQL)
 	// ext: PG Parse+Bind+Describe+Execute+Sync in one round; parse: Parse+Sync of a named statement; bind: Bind+Execute+Sync of it
 	// prepare / execute / close: MySQL COM_STMT_PREPARE / COM_STMT_EXECUTE / COM_STMT_CLOSE of a named statement
-	Kind    string  `json:"kind"`
-	Name    string  `json:"name,omitempty"`
-	SQL     string  `json:"sql,omitempty"`
-	Params  []Param `json:"params,omitempty"`
-	OIDs    []uint32 `json:"oids,omitempty"`
-	RFmt    []int16 `json:"rfmt,omitempty"`
-	MaxRows uint32  `json:"maxrows,omitempty"`
-	FailDB  bool    `json:"faildb,omitempty"` // the database answers this step with an error (quoting statement and values)
-	Rows    [][]string `json:"rows,omitempty"` // canned rows (hex; "" = NULL) the database answers a row-returning step with
+	Kind    string     `json:"kind"`
+	Name    string     `json:"name,omitempty"`
+	SQL     string     `json:"sql,omitempty"`
+	Params  []Param    `json:"params,omitempty"`
+	OIDs    []uint32   `json:"oids,omitempty"`
+	RFmt    []int16    `json:"rfmt,omitempty"`
+	MaxRows uint32     `json:"maxrows,omitempty"`
+	FailDB  bool       `json:"faildb,omitempty"` // the database answers this step with an error (quoting statement and values)
+	Rows    [][]string `json:"rows,omitempty"`   // canned rows (hex; "" = NULL) the database answers a row-returning step with
 }
 
 // Param is a bound parameter.
 type Param struct {
 	Hex  string `json:"hex"`
-	Bin  bool   `json:"bin,omitempty"`  // PG: binary format code
+	Bin  bool   `json:"bin,omitempty"` // PG: binary format code
 	Null bool   `json:"null,omitempty"`
 	Type byte   `json:"type,omitempty"` // MySQL parameter type
 }
 
 // Needle is a byte string that must not occur in any log entry.
 type Needle struct {
-	ID    string `json:"id"`    // e.g. lit:3:estr, param:2:bin-int4:hex, stmt:5
-	Hex   string `json:"hex"`
-	Fold  bool   `json:"fold,omitempty"` // compare case-insensitively
-	Step  int    `json:"step"`
+	ID   string `json:"id"` // e.g. lit:3:estr, param:2:bin-int4:hex, stmt:5
+	Hex  string `json:"hex"`
+	Fold bool   `json:"fold,omitempty"` // compare case-insensitively
+	Step int    `json:"step"`
 }
 
 // Hit is a needle found in an entry.
@@ -99,14 +100,14 @@ type Hit struct {
 
 // Outcome of a session.
 type Outcome struct {
-	Steps   []string `json:"steps"`   // per step: ok | dberr | dberr-echo | denied | timeout | closed | skipped
-	Entries int      `json:"entries"`
-	Sites   []string `json:"sites"`   // distinct "<level>|<message>" of the captured entries
-	Hits    []Hit    `json:"hits"`
-	Panic   string   `json:"panic,omitempty"`
-	PanicSite string `json:"panic_site,omitempty"` // the function of /repo in which a proxy goroutine panicked
-	Echoed  int      `json:"echoed"`  // error responses relayed to the client that quoted a needle
-	StepMs  []int64  `json:"step_ms,omitempty"` // diagnostics only: wall time per step and of the shutdown (last)
+	Steps     []string `json:"steps"` // per step: ok | dberr | dberr-echo | denied | timeout | closed | skipped
+	Entries   int      `json:"entries"`
+	Sites     []string `json:"sites"` // distinct "<level>|<message>" of the captured entries
+	Hits      []Hit    `json:"hits"`
+	Panic     string   `json:"panic,omitempty"`
+	PanicSite string   `json:"panic_site,omitempty"` // the function of /repo in which a proxy goroutine panicked
+	Echoed    int      `json:"echoed"`               // error responses relayed to the client that quoted a needle
+	StepMs    []int64  `json:"step_ms,omitempty"`    // diagnostics only: wall time per step and of the shutdown (last)
 }
 
 func init() {
@@ -597,7 +598,11 @@ func runMy(sc *Script, ks *env.TKS, yaml string, opts c04.WorldOpts, out *Outcom
 	}
 	defer w.Close()
 	w.DB.EchoErrors = true
-	s, err := w.OpenPumped(sessionClient)
+	caps := uint32(0)
+	if sc.DeprecateEOF {
+		caps = fakemy.CapProtocol41 | fakemy.CapSecureConnection | fakemy.CapDeprecateEOF
+	}
+	s, err := w.OpenPumped(sessionClient, caps)
 	if err != nil {
 		panic("harness: open: " + err.Error())
 	}
